@@ -1908,7 +1908,7 @@ func run(c *vf.Ctx) {
 		}
 		return
 	}
-	c.SetRule("one evaluation = one run of one scenario (DerivedVariable1-4/InheritFrom/DeriveValueFrom, DerivedSet, SubtractReactive, Counter, SortedSet x4, WaitGroup, EvictionState) on fresh objects: seeded writer goroutines on different inputs plus structural changes (inherit/unsubscribe source, Monitor, add/delete/re-add element, Replace on a source, weight updates of present and removed elements), then the defining function is recomputed from the inputs at quiescence (right after construction/attachment with inputs that are already zero / non-zero, after every round of concurrent writes, in sequential scenarios after every step; Counter conditions come from a seeded family incl. conditions that hold for the zero value; writer streams include the zero value / the empty set; InheritFrom, DeriveValueFrom and new DerivedVariables are attached to inputs while these are written and stay checked); entry-var / entry-set: inputs (plain, transforming, derived and counter carriers, Events, reactive Sets) that already have every kind of derived value attached are written through every exported write entry point (Init, Set, Compute, DefaultTo, ToggleValue and its reset, InheritFrom, DeriveValueFrom, Trigger; Add, AddAll, Delete, DeleteAll, Apply, Compute, Replace, Clear, Decode), sequentially with the oracle after every step and in concurrent rounds; the writer mixes of dv, counter and the SortedSet weights use the same entry points; runs are distinct by construction (run seed); distinct_nontrivial counts runs in which at least two writer goroutines' activity spans overlapped by logical ticks (sequential scenarios: at least 3 effective steps)")
+	c.SetRule("one evaluation = one run of one scenario (DerivedVariable1-4/InheritFrom/DeriveValueFrom, DerivedSet, SubtractReactive, Counter, SortedSet x4, WaitGroup, EvictionState) on fresh objects: seeded writer goroutines on different inputs plus structural changes (inherit/unsubscribe source, Monitor, add/delete/re-add element, Replace on a source, weight updates of present and removed elements), then the defining function is recomputed from the inputs at quiescence (right after construction/attachment with inputs that are already zero / non-zero, after every round of concurrent writes, in sequential scenarios after every step; Counter conditions come from a seeded family incl. conditions that hold for the zero value; writer streams include the zero value / the empty set; InheritFrom, DeriveValueFrom and new DerivedVariables are attached to inputs while these are written and stay checked); entry-var / entry-set: inputs (plain, transforming, derived and counter carriers, Events, reactive Sets) that already have every kind of derived value attached are written through every exported write entry point (Init, Set, Compute, DefaultTo, ToggleValue and its reset, InheritFrom, DeriveValueFrom, Trigger; Add, AddAll, Delete, DeleteAll, Apply, Compute, Replace, Clear, Decode), sequentially with the oracle after every step and in concurrent rounds; the sequential histories are chains three levels deep whose middle nodes are written directly as well (mostly writes without effect) and whose every level is compared with the defining function of the current values of its parents; they include writes that fail or abort part-way (Decode of a payload cut at every position, Compute with a panicking function, teardown of an inheritance from inside the update being delivered); the writer mixes of dv, counter and the SortedSet weights use the same entry points; runs are distinct by construction (run seed); distinct_nontrivial counts runs in which at least two writer goroutines' activity spans overlapped by logical ticks (sequential scenarios: at least 3 effective steps)")
 	total := c.Pick(30000, 600000)
 	chunk := c.Pick(600, 6000)
 	var jobs []job
@@ -1965,7 +1965,17 @@ func run(c *vf.Ctx) {
 		c.Require("entry_writes_on_carrier:"+k, total/400)
 	}
 	c.Require("entry_event_writes", total/400)
-	c.Require("entry_set_effective_clear_or_decode", total/400)
+	// chains: direct writes on middle nodes (most of them without effect) followed by >= 2 effective source mutations
+	c.Require("entry_set_middle_writes_without_effect", total/100)
+	c.Require("entry_set_middle_write_then_two_source_mutations", total/100)
+	c.Require("entry_var_middle_writes_without_effect", total/100)
+	c.Require("entry_var_middle_write_then_two_input_changes", total/100)
+	// writes that fail / abort part-way
+	c.Require("entry_set_failed_decodes_after_a_complete_element", total/100)
+	c.Require("entry_set_decode_cut_sweeps", total/400)
+	c.Require("entry_set_teardowns_inside_update", total/400)
+	c.Require("entry_var_teardowns_inside_update", total/400)
+	c.Require("entry_failed_writes", total/400)
 	c.Require("writes_beyond_set_compute", total/20)
 }
 
